@@ -403,6 +403,9 @@ func outcomeOf(c byte) error {
 		return errPermanent
 	case 't':
 		return errTransient
+	case 'h':
+		// the backend asks for a pause longer than the back-off interval (a retryable failure like any other)
+		return exporterhelper.NewThrottleRetry(errTransient, 3*c01Backoff)
 	}
 	return nil
 }
@@ -586,7 +589,7 @@ func c01Config(tp *simkit.Tape) c01Cfg {
 	c.Empties = !c.Batcher && tp.Chance(1, 5)
 	c.StartIndex = []uint64{0, 0, 254, 65534, 4294967294, 1<<53 - 2, 1<<62 - 1}[tp.Draw(7)]
 	n := tp.Range(3, 10)
-	ops := []string{"E", "Ao", "Ap", "At", "T", "Ro", "Rt", "Y"}
+	ops := []string{"E", "Ao", "Ap", "At", "T", "Ro", "Rt", "Y", "Ah"}
 	if tp.Chance(1, 6) {
 		// wide: many consumers, all busy - the list of dispatched items gets long and completions come out of order
 		c.Mode = "plan"
@@ -599,12 +602,12 @@ func c01Config(tp *simkit.Tape) c01Cfg {
 		}
 		n = tp.Range(2, 7)
 		for i := 0; i < n; i++ {
-			c.Script = append(c.Script, ops[tp.Weighted(1, 6, 1, 1, 1, 1, 1, 1)])
+			c.Script = append(c.Script, ops[tp.Weighted(1, 6, 1, 1, 1, 1, 1, 1, 1)])
 		}
 		return c
 	}
 	for i := 0; i < n; i++ {
-		op := ops[tp.Weighted(6, 3, 1, 2, 1, 1, 1, 1)]
+		op := ops[tp.Weighted(6, 3, 1, 2, 1, 1, 1, 1, 1)]
 		c.Script = append(c.Script, op)
 	}
 	return c
@@ -738,7 +741,7 @@ var HarnessC01 = simkit.Harness{
 	Prop: "C01", Name: "exp/c01", Run: runC01, StepTimeout: 20e9,
 	Real: []string{"exporterhelper.NewLogs exporter (real logs request type and protobuf encoding)", "queue sender, obsreport sender, retry sender", "queuebatch persistent queue + async consumers"},
 	Stub: []string{"storage extension: simdisk (durable map, atomic numbered calls, crash fence)", "backend (push function parks until the script answers)"},
-	Rule: "one run = one tape-drawn script of enqueue / answer(ok|permanent|transient) / advance / graceful-restart operations (in 1 run in 5 without a batcher every third request is an empty payload, stored with a zero-length encoding); mode enumerate: the crash-free lifetime, then EVERY (storage call k, before|after) of every incarnation as a process death, and for each of those every death point of the lifetimes that follow (depth 2; depth 3 in the thorough tier for scripts <= 6 ops), each lifetime ending with a fault-free draining incarnation; mode plan: one crash plan of depth <= 4 read from the tape. evaluations = lifetimes; distinct = distinct (config, script, crash plan); non-trivial = at least one death actually fired",
+	Rule: "one run = one tape-drawn script of enqueue / answer(ok|permanent|transient|throttle for longer than the back-off) / advance / graceful-restart operations (in 1 run in 5 without a batcher every third request is an empty payload, stored with a zero-length encoding); mode enumerate: the crash-free lifetime, then EVERY (storage call k, before|after) of every incarnation as a process death, and for each of those every death point of the lifetimes that follow (depth 2; depth 3 in the thorough tier for scripts <= 6 ops), each lifetime ending with a fault-free draining incarnation; mode plan: one crash plan of depth <= 4 read from the tape. evaluations = lifetimes; distinct = distinct (config, script, crash plan); non-trivial = at least one death actually fired",
 }
 
 // recordsOf lists the "req/idx" identities of the log records of a payload (from the record bodies "req-<id>/<idx>").
